@@ -260,6 +260,10 @@ void ezc3d::c3d::parameter(const std::string &groupName, const ezc3d::Parameters
     if (!p.name().compare("")){
         throw std::invalid_argument("Parameter must have a name");
     }
+    if (p.type() == ezc3d::DATA_TYPE::NONE){
+        // Refuse before the group is created, so that a refused call leaves the parameters unchanged
+        throw std::runtime_error("Data type is not set");
+    }
 
     size_t idx;
     try {
